@@ -368,6 +368,7 @@ class Engine:
         self._havoc(it, mod, lc)
         for nm, g in lc.invariant(self, it, None):
             it.assume(g)
+        it.ghost[f"head{ordn}"] = {k: v.clone() for k, v in it.heap.items()}
         ex = it.clone()
         cv = self.truth(self.ev(s.test, it))
         it.assume(cv)
@@ -416,8 +417,10 @@ class Engine:
         gh["coll"] = cterm
         for nm, g in lc.invariant(self, it, gh):
             it.assume(g)
+        it.ghost[f"head{ordn}"] = {k: v.clone() for k, v in it.heap.items()}
         ex = it.clone()
         elem = itr.pick(it, gh)           # assumes "not finished", returns current element
+        it.ghost[f"loop{ordn}"] = gh      # visible to invariants of nested loops (c.outer(ordn))
         self.assign(s.target, elem, it)
         self.cover(it, f"loop{ordn}.body", s.lineno)
         gh1 = itr.advance(gh)
@@ -457,6 +460,19 @@ class Engine:
     # ------------------------------------------------------------------ assignment
     def assign(self, target, v, st):
         if isinstance(target, ast.Name):
+            if isinstance(v.ty, TEmpty) and v.ty.kind in ("list", "set", "dict") or v.ty == TNoneLit:
+                # untyped literal: adopt the declared type of the local, or the type it already has
+                want = self.c.local_types.get(target.id)
+                cur = st.env.get(target.id)
+                if want is None and cur is not None and isinstance(cur.ty, (TList, TSet, TDict, TOpt)) :
+                    want = cur.ty
+                if want is None and cur is not None and cur.ty == TSpace and v.ty != TNoneLit:
+                    want = TSpace
+                if want is not None:
+                    try:
+                        v = self.coerce(v, want, st)
+                    except OutOfSubset:
+                        pass
             st.env[target.id] = v
         elif isinstance(target, (ast.Tuple, ast.List)):
             parts = self.untuple(v, len(target.elts))
